@@ -79,7 +79,7 @@ def handleResp (case obs : List String) : String :=
       if trailersOnly then gs else (frames.find? (fun t => tokKind t = 't')).map (fun t => (t.drop 1).toString)
     let expectedCode := if early ≠ "-" then early else endc
     let expectMsgs : List Bytes := if early ≠ "-" then [] else if shape = "u" then msgs.take 1 else msgs
-    verdict ([("no-panic", !obs.any isBad),
+    verdict ([("no-panic", !obs.any isBad), ("no-lost-wakeup", noLostWakeup obs),
               ("http-200", fieldOf "S" obs == some "200"),
               ("content-type-application-grpc", fieldOf "ct" obs == some (hexBare (Ascii.ofString "application/grpc"))),
               ("exactly-one-grpc-status",
@@ -97,7 +97,7 @@ def handleReq (case obs : List String) : String :=
     let o := (unhexBare origin).getD []
     let p := (unhexBare path).getD []
     let expectPath := if o = [] ∨ o = Ascii.ofString "/" then p else o ++ p
-    verdict ([("no-panic", !obs.any isBad),
+    verdict ([("no-panic", !obs.any isBad), ("no-lost-wakeup", noLostWakeup obs),
               ("method-POST", fieldOf "M" obs == some "POST"),
               ("http2", fieldOf "V" obs == some "HTTP/2.0"),
               ("path", (fieldOf "P" obs).bind unhexBare == some expectPath),
@@ -131,7 +131,7 @@ def handle (case obs : List String) : String × String :=
     let trailersOk := if c.cfg.server
       then nT == 1 && (match afterFirstT (pollToks obs) with | some r => r.all (fun t => t = "n") | none => false)
       else nT == 0
-    (m, verdict [("no-panic", !obs.any isBad),
+    (m, verdict [("no-panic", !obs.any isBad), ("no-lost-wakeup", noLostWakeup obs),
                  ("body-is-whole-frames", left.isEmpty),
                  ("flag-matches-compression", flagsOk),
                  ("payloads-are-serialized-messages", payloadsAreMessages),
